@@ -39,6 +39,7 @@ class QueueModel:
         self.dropped = set()
         self.restarts = 0
         self.nfinished = {}
+        self.issued = set()
 
     # ------------------------------------------------------------------ helpers
     def flag(self, sig, msg):
@@ -113,24 +114,39 @@ class QueueModel:
             # per-channel outcome counters are not part of the saved state
             self.stats = {}
             self.restarts += 1
-        elif kind in ("response", "shutdown-done", "watchdog"):
+        elif kind == "watchdog":
+            # dropdead(): jobs whose drop-deadline has passed are forgotten; finished jobs without one get now + ttl
+            now = int(ev[1])
+            for jid, j in list(self.jobs.items()):
+                if jid in self.dropped:
+                    continue
+                if j.get("wd_deadline") and j["wd_deadline"] < now:
+                    self.dropped.add(jid)
+                    self.waiting.discard(jid)
+                elif j["done"] and not j.get("wd_deadline"):
+                    j["wd_deadline"] = now + j.get("ttl", 3600)
+        elif kind in ("response", "shutdown-done"):
             pass
 
     def on_call(self, conn, name, kw, clock):
         if name == "qadd":
             jid = kw.get("jobid")
-            ex = self.jobs.get(jid)
+            ex = self.jobs.get(jid) if jid not in self.dropped else None
             if jid is not None and ex is not None and ex["error"] != "killed":
                 self.expect[conn] = ("return", jid)
                 return
             self.count += 1
             if jid is None:
                 jid = self.count
+                if jid in self.issued:
+                    self.flag("id-reused", "new job got id %r which was already issued" % (jid,))
+            self.issued.add(jid)
             tmo = kw.get("timeout")
             self.jobs[jid] = {"channel": kw["channel"], "priority": kw.get("priority", 0), "serial": self.count,
                               "done": False, "error": None, "result": None,
                               "deadline": clock + (120.0 if tmo is None else tmo)}
             self.waiting.add(jid)
+            self.dropped.discard(jid)  # an id forgotten by the watchdog may be used again
             self.enqueueings[jid] = self.enqueueings.get(jid, 0) + 1
             self.expect[conn] = ("return", jid)
         elif name == "qpull":
@@ -146,6 +162,8 @@ class QueueModel:
             if jid not in self.jobs or jid in self.dropped:
                 self.expect[conn] = ("raise", "KeyError")
                 return
+            if not self.jobs[jid]["done"]:
+                self.jobs[jid]["ttl"] = min(10, 3600) if kw.get("error") else 3600
             self.finish(jid, kw.get("error"), kw.get("result"))
             self.holding[conn] = [(j, o) for (j, o) in self.holding.get(conn, []) if j != jid]
             self.expect[conn] = ("return", None)
